@@ -962,7 +962,11 @@ Definition creatable (uty : option segtype) : bool :=
   negb (is_ty TSearch uty || is_ty TKeywordSearch uty || is_ty TMatchAll uty || is_ty TTraverse uty).
 
 (* the missing-element branch of _get_optional_nodes (processor.py:2463-2618):
-   the refusals are modelled here, the node-creating branches are [creator] *)
+   the refusals are modelled here, the node-creating branches are [creator].
+   Since fix 09e1e7a the walk no longer stops at a null node (the old
+   `if next_coord.node is None: yield next_coord; continue`): a null is walked
+   into like any other node and, when a KEY / INDEX segment finds nothing in it,
+   replaced by the container that segment needs. *)
 Definition missing_element (segs : list pseg) (i : nat) (ps : pseg) (v : rval) (c : ctx) : gen rval :=
   let uty := fst (seg_us ps) in
   let a := snd (seg_es ps) in
@@ -972,6 +976,13 @@ Definition missing_element (segs : list pseg) (i : nat) (ps : pseg) (v : rval) (
       else if is_ty TKey uty then creator segs i v c
       else gerr (YPE Generic)
   | RNode (NSet _ _) => if is_ty TKey uty then creator segs i v c else gerr (YPE Generic)
+  | RNode (NLeaf _ PNone) =>
+      (* a null that is the child of a dict / list is replaced by the container a KEY / INDEX segment needs
+         (Nodes.build_next_node(yaml_path, depth, value); parent[parentref] = data) before the branches below *)
+      if (is_ty TIndex uty || is_ty TKey uty)
+         && match x_par c with Some par => is_pydict par || is_pylist par | None => false end
+      then creator segs i v c
+      else gerr (YPE Generic)
   | RNode (NLeaf _ _) | RCoords _ _ _ _ _ => gerr (YPE Generic)
   | _ =>
       if is_ty TAnchor uty && match a with AStr _ => true | _ => false end then creator segs i v c
@@ -1021,9 +1032,7 @@ Definition ev_body (rec : mode -> list pseg -> nat -> rval -> ctx -> gen rval)
             gbind g (fun x =>
               if is_pylist x then rec MOpt segs (S i) x c
               else match x with
-                   | RCoords nd par rf path anc =>
-                       if is_pynone nd then gone x
-                       else rec MOpt segs (S i) nd (mkctx par rf true path anc)
+                   | RCoords nd par rf path anc => rec MOpt segs (S i) nd (mkctx par rf true path anc)
                    | _ => gerr (PyCrash AttributeError)
                    end) in
           match g with
